@@ -101,6 +101,9 @@ func (l Lib) Scan(kind string, src any) (geom.T, error) {
 		case mgeom.Pt:
 			var w ewkb.Point
 			err := w.Scan(src)
+			if w.Valid() != (w.Point != nil) {
+				return nil, fmt.Errorf("wkbadapt: after Scan, Valid() = %v although the wrapper holds a geometry: %v", w.Valid(), w.Point != nil)
+			}
 			if err != nil || w.Point == nil {
 				return nil, err
 			}
@@ -108,6 +111,9 @@ func (l Lib) Scan(kind string, src any) (geom.T, error) {
 		case mgeom.LS:
 			var w ewkb.LineString
 			err := w.Scan(src)
+			if w.Valid() != (w.LineString != nil) {
+				return nil, fmt.Errorf("wkbadapt: after Scan, Valid() = %v although the wrapper holds a geometry: %v", w.Valid(), w.LineString != nil)
+			}
 			if err != nil || w.LineString == nil {
 				return nil, err
 			}
@@ -115,6 +121,9 @@ func (l Lib) Scan(kind string, src any) (geom.T, error) {
 		case mgeom.Pg:
 			var w ewkb.Polygon
 			err := w.Scan(src)
+			if w.Valid() != (w.Polygon != nil) {
+				return nil, fmt.Errorf("wkbadapt: after Scan, Valid() = %v although the wrapper holds a geometry: %v", w.Valid(), w.Polygon != nil)
+			}
 			if err != nil || w.Polygon == nil {
 				return nil, err
 			}
@@ -122,6 +131,9 @@ func (l Lib) Scan(kind string, src any) (geom.T, error) {
 		case mgeom.MPt:
 			var w ewkb.MultiPoint
 			err := w.Scan(src)
+			if w.Valid() != (w.MultiPoint != nil) {
+				return nil, fmt.Errorf("wkbadapt: after Scan, Valid() = %v although the wrapper holds a geometry: %v", w.Valid(), w.MultiPoint != nil)
+			}
 			if err != nil || w.MultiPoint == nil {
 				return nil, err
 			}
@@ -129,6 +141,9 @@ func (l Lib) Scan(kind string, src any) (geom.T, error) {
 		case mgeom.MLS:
 			var w ewkb.MultiLineString
 			err := w.Scan(src)
+			if w.Valid() != (w.MultiLineString != nil) {
+				return nil, fmt.Errorf("wkbadapt: after Scan, Valid() = %v although the wrapper holds a geometry: %v", w.Valid(), w.MultiLineString != nil)
+			}
 			if err != nil || w.MultiLineString == nil {
 				return nil, err
 			}
@@ -136,6 +151,9 @@ func (l Lib) Scan(kind string, src any) (geom.T, error) {
 		case mgeom.MPg:
 			var w ewkb.MultiPolygon
 			err := w.Scan(src)
+			if w.Valid() != (w.MultiPolygon != nil) {
+				return nil, fmt.Errorf("wkbadapt: after Scan, Valid() = %v although the wrapper holds a geometry: %v", w.Valid(), w.MultiPolygon != nil)
+			}
 			if err != nil || w.MultiPolygon == nil {
 				return nil, err
 			}
@@ -143,6 +161,9 @@ func (l Lib) Scan(kind string, src any) (geom.T, error) {
 		case mgeom.GC:
 			var w ewkb.GeometryCollection
 			err := w.Scan(src)
+			if w.Valid() != (w.GeometryCollection != nil) {
+				return nil, fmt.Errorf("wkbadapt: after Scan, Valid() = %v although the wrapper holds a geometry: %v", w.Valid(), w.GeometryCollection != nil)
+			}
 			if err != nil || w.GeometryCollection == nil {
 				return nil, err
 			}
@@ -369,9 +390,12 @@ func (l Lib) NewScanner(kind string) *Scanner {
 	return nil
 }
 
-// GenericValue is wkb.Geom's Value.
-func (l Lib) GenericValue(g geom.T) (driver.Value, error) {
-	return (&wkb.Geom{T: g}).Value()
+// GenericValue is wkb.Geom's Value (the untyped wrapper), together with the
+// geometry the wrapper says it holds.
+func (l Lib) GenericValue(g geom.T) (driver.Value, geom.T, error) {
+	w := &wkb.Geom{T: g}
+	v, err := w.Value()
+	return v, w.Geom(), err
 }
 
 // SetLimits installs the per-level element limits and returns a function that
